@@ -330,7 +330,8 @@ var (
 // acquireDir returns the temp directory in its pristine state.
 func acquireDir() (string, error) {
 	if curDir == "" {
-		curDir = filepath.Join(evid.WorkDir(), "tree")
+		// per process: the workers of the native fuzz stage share one work directory
+		curDir = filepath.Join(evid.WorkDir(), fmt.Sprintf("tree-%d", os.Getpid()))
 		os.RemoveAll(curDir)
 		restore(curDir)
 		curSig = treeSig(curDir)
